@@ -91,7 +91,9 @@ func setTimes(r *coqfmt.Rng, v reflect.Value) {
 
 func leafPalette(r *coqfmt.Rng) reflect.Type {
 	tup, tuv := rty.TextUTypes()
-	switch x := r.Intn(25); {
+	switch x := r.Intn(27); {
+	case x >= 25:
+		return coqfmt.Pick(r, rty.EnumTypes()) // a TextUnmarshaler of SCALAR kind: its text is its UnmarshalText's, not the kind's
 	case x == 24:
 		return tTime // std: flaghelper.TimeWrapper; pflag: the MarshalWrapper
 	case x < 10:
@@ -303,7 +305,7 @@ func canonDefault(fi flagInfo) (string, bool) {
 		switch inner {
 		case "*net.IP":
 			return "(VOpaque 2)", true
-		case "*rty.TUp":
+		case "*rty.TUp", "*rty.NSeverity", "*rty.NMode":
 			return "(VText " + coqfmt.Str(d) + ")", true
 		default:
 			return "(VOpaque 3)", true
@@ -501,7 +503,7 @@ func genText(r *coqfmt.Rng, fi flagInfo) (string, bool) {
 		if r.Chance(1, 12) {
 			return coqfmt.Pick(r, []string{"Inf", "-Infinity", "+inf", "iNf", "-INF"}), true // never an overflow, whatever the leaf's size
 		}
-		if vt == "*flag.float64Value" && r.Chance(1, 8) {
+		if vt == "*flag.float64Value" && r.Chance(1, 2) {
 			// std package: a float32 leaf rides on a float64 flag and Value checks the range itself.  The
 			// largest float32, and a float64 just above it (MaxFloat32 + 2^100: it would ROUND to the
 			// largest float32) - in range for a float64 leaf, out of range for a float32 leaf
@@ -530,6 +532,9 @@ func genText(r *coqfmt.Rng, fi flagInfo) (string, bool) {
 			}
 			return fmt.Sprintf("%d.%d.%d.%d", r.Intn(256), r.Intn(256), r.Intn(256), r.Intn(256)), true
 		}
+		if inner == "*rty.NSeverity" || inner == "*rty.NMode" {
+			return coqfmt.Pick(r, []string{"DEBUG", "INFO", "WARN", "ERROR", "fast", "slow", "fast", "WARN", "3", "bogus", "", "warn"}), true
+		}
 		return coqfmt.Pick(r, []string{"", "txt", "a b", "1,2"}), true
 	case strings.HasSuffix(vt, "StringSliceFlag") && !strings.HasSuffix(vt, "MapStringStringSliceFlag"):
 		bad := r.Chance(1, 8)
@@ -540,7 +545,12 @@ func genText(r *coqfmt.Rng, fi flagInfo) (string, bool) {
 		n := 1 + r.Intn(3)
 		ws := make([]string, n)
 		for i := range ws {
-			ws[i] = genInt(r, !strings.Contains(vt, "Unsigned") && !strings.HasPrefix(vt, "p:*[]uint"))
+			signed := !strings.Contains(vt, "Unsigned") && !strings.HasPrefix(vt, "p:*[]uint")
+			ws[i] = genInt(r, signed)
+			if !signed && r.Chance(1, 5) {
+				// the upper half of the unsigned 64-bit range (an element of a []uint64 / []uint / []uintptr)
+				ws[i] = coqfmt.Pick(r, []string{"18446744073709551615", "9223372036854775808", "0xFFFFFFFFFFFFFFFF", "12345678901234567890"})
+			}
 			if r.Chance(1, 6) {
 				ws[i] = " " + ws[i] + " "
 			}
@@ -645,7 +655,7 @@ func run(raw json.RawMessage) driver.Result {
 		return t
 	}
 	tmpl0, tmpl1, tmpl2 := mkTemplate(), mkTemplate(), mkTemplate()
-	tmplTerm := rty.ValuePrinter.StructFieldsTerm(tmpl2.Elem()) // tmpl2: non-nil chan fields print their address, and the stacked result shares them
+	tmplTerm := rty.EnumPrinter.StructFieldsTerm(tmpl2.Elem()) // tmpl2: non-nil chan fields print their address, and the stacked result shares them
 	PT := ptrify.Pointerify(T, tmpl0.Elem())
 
 	_, infos, err0, panic0 := build(in.Pkg, ne, te, tmpl0.Interface(), nil)
@@ -723,11 +733,11 @@ func run(raw json.RawMessage) driver.Result {
 	okTerm := ""
 	stackTerm := "(Err 0)"
 	if err1 == nil && !panic1 {
-		okTerm = rty.ValuePrinter.StructFieldsTerm(val)
+		okTerm = rty.EnumPrinter.StructFieldsTerm(val)
 		res, serr, spanic := composeSafe(tmpl2, []reflect.Value{val})
 		st := ""
 		if serr == nil && !spanic {
-			st = rty.ValuePrinter.StructFieldsTerm(res)
+			st = rty.EnumPrinter.StructFieldsTerm(res)
 		}
 		stackTerm = driver.Outcome(st, serr, spanic)
 	}
@@ -761,7 +771,7 @@ func run(raw json.RawMessage) driver.Result {
 		direct = append(direct, "an advertised default could not be rendered canonically (harness)")
 	}
 	return driver.Result{
-		Coq: fmt.Sprintf("FlagCase %d %d %d %s %s %s %s %s %s %s", in.Pkg, ne, te, rty.ValuePrinter.FieldsTerm(T), tmplTerm, nd.Term(),
+		Coq: fmt.Sprintf("FlagCase %d %d %d %s %s %s %s %s %s %s", in.Pkg, ne, te, rty.EnumPrinter.FieldsTerm(T), tmplTerm, nd.Term(),
 			driver.Outcome(advTerm, err0, panic0), coqfmt.List(occParts), driver.Outcome(okTerm, err1, panic1), stackTerm),
 		Kind:       "generated",
 		Nontrivial: len(infos) >= 2 && len(occs) >= 1 && len(occs) < len(infos)+2 && (repeated || len(occs) >= 2),
